@@ -20,7 +20,10 @@
     is a trap (C08_can_finish).  After a kill the producers and the completion goroutine CAN be
     left blocked for ever on a full queue (C08_kill_leak_refuted; also true of the Go code).
     NOT proved: anything about schedules that starve a thread for ever (then the walk really does
-    not end: a consumer may poll for ever while the producer it waits for is never scheduled). *)
+    not end: a consumer may poll for ever while the producer it waits for is never scheduled).
+    Third part (end of the file, proof audit): termination for every weakly fair INFINITE schedule
+    with no bound on the unfairness (C08_fair_terminates), and the Wait, error and no-error clauses
+    in terms of what the caller observes. *)
 From GC Require Import Common.Base Model.Loop Model.LoopLive Proofs.Loop Proofs.LoopLive.
 From Coq Require Import Permutation.
 Open Scope N_scope.
@@ -319,3 +322,164 @@ Example C08_wait_can_return_nonvacuous :
   let s := run cfg (rr_from cfg s1) s1 in
   all_exited s = true /\ waited s = true /\ killed s = true /\ errs s = [ECb (IDir [46; 47; 97])].
 Proof. vm_compute. repeat split. Qed.
+
+(** ========== third part (proof audit): the clauses of the statement at full strength.
+    Lemmas in Proofs/C08More.v; the model is unchanged.
+
+    - the Wait clause: [running s = 0] (C08_wait) says that no callback is in progress; what the
+      statement asks is that every callback that was BEGUN has RETURNED, and that none begins later.
+      C08_wait_after_last_callback: in every reachable state the callbacks begun are the callbacks
+      returned plus the ones in flight; after Wait has returned nothing is in flight, begun =
+      returned, and both histories are final whatever is scheduled afterwards.
+    - the error clause: C08_errors gives "a failure is listed"; C08_errors_exact adds that every
+      entry of the list is a failure that happened (a failed callback that has returned, a failed
+      listing), that every callback begun that fails is listed once all consumers have exited, and
+      that a kill not caused by a Kill event of the environment leaves an entry.
+    - "with no error nothing is skipped or repeated under any scheduling": C08_exactly_once assumes
+      [killed s = false], a fact about the internal state.  C08_no_error_exactly_once assumes what
+      the caller sees: Loop.Errors() (the recorded errors followed by the context error, [reported])
+      is empty after Wait returned - for ALL schedules, Kill events included; or the recorded
+      errors are empty and no Kill event happened.  Conclusion: callbacks begun and callbacks
+      RETURNED are each exactly the selected nodes.  Supersedes C08_exactly_once (kept).
+    - the selected set: [sel_list] is an executable function; C08_selected_iff gives the declarative
+      reading (file accepted / directory accepted / below an accepted directory, and only those).
+    - "and then stops": C08_fair_finish needs a bound on the unfairness.  C08_fair_terminates has
+      none: for every INFINITE schedule [f : nat -> tid] that is weakly fair (every thread other
+      than the environment again and again gets a turn or is disabled; Kill events at any time)
+      there is a length from which on every prefix of [f] has ended the walk: consumers exited,
+      Wait returned, and without a kill producers and completion goroutine ended and the callbacks
+      are exactly the selected nodes.  This is the termination statement that the header of this
+      file lists as not proved; what remains false is termination when a thread is starved.
+    - REFUTED, model and Go code: the error list is not final when Wait returns
+      (C08_late_error_refuted; reproduced 200/200 on fsloop with a gated ReadDir,
+      notes/C08-audit/LATE-ERROR). *)
+From GC Require Import Proofs.C08More.
+Open Scope N_scope.
+
+Theorem C08_wait_after_last_callback : forall cfg base root sched,
+  let s := run cfg sched (init cfg base root) in
+  Permutation (log s) (ended s ++ flight s) /\ length (flight s) = running s /\
+  (waited s = true ->
+   flight s = [] /\ Permutation (log s) (ended s) /\
+   forall sched', let s' := run cfg sched' s in
+                  log s' = log s /\ ended s' = ended s /\ running s' = 0%nat).
+Proof. exact wait_last_full. Qed.
+Print Assumptions C08_wait_after_last_callback.
+
+Theorem C08_errors_exact : forall cfg base root sched,
+  let s := run cfg sched (init cfg base root) in
+  (forall it, In (ECb it) (errs s) -> cberr cfg it = true /\ In it (ended s)) /\
+  (forall p, In (ELs p) (errs s) -> rderr cfg p = true /\ In p (lfail s)) /\
+  ((forall it, In it (ended s) -> cberr cfg it = false) -> lfail s = [] -> errs s = []) /\
+  (all_exited s = true -> forall it, In it (log s) -> cberr cfg it = true -> In (ECb it) (errs s)) /\
+  (~ In TX sched -> killed s = true -> errs s <> []).
+Proof. exact errors_exact_full. Qed.
+Print Assumptions C08_errors_exact.
+
+(** Loop.Errors() is empty exactly when the lifecycle is not killed. *)
+Theorem C08_reported_empty : forall cfg base root sched,
+  let s := run cfg sched (init cfg base root) in
+  reported s = [] <-> killed s = false.
+Proof. exact reported_nil. Qed.
+Print Assumptions C08_reported_empty.
+
+Theorem C08_no_error_exactly_once : forall cfg base root sched,
+  xt cfg = ClosedThenEmpty -> (1 <= cmax cfg)%nat ->
+  let s := run cfg sched (init cfg base root) in
+  (waited s = true \/ all_exited s = true) ->
+  (reported s = [] \/ (~ In TX sched /\ errs s = [])) ->
+  killed s = false /\
+  Permutation (log s) (sel_list cfg base root) /\ Permutation (ended s) (sel_list cfg base root) /\
+  dq s = [] /\ fq s = [].
+Proof. exact no_error_exact_full. Qed.
+Print Assumptions C08_no_error_exactly_once.
+
+Theorem C08_selected_iff : forall cfg base l it,
+  In it (sel_list cfg base l) <-> Selected cfg base l it.
+Proof. exact selected_iff. Qed.
+Print Assumptions C08_selected_iff.
+
+Theorem C08_fair_terminates : forall cfg base root f,
+  (1 <= cmax cfg)%nat -> (1 <= dcap cfg)%nat -> (1 <= fcap cfg)%nat ->
+  wfair cfg (init cfg base root) f ->
+  exists N, forall m, (N <= m)%nat ->
+    let s' := run cfg (pre f m) (init cfg base root) in
+    all_exited s' = true /\ waited s' = true /\
+    (killed s' = false ->
+     finished s' = true /\
+     (xt cfg = ClosedThenEmpty ->
+      Permutation (log s') (sel_list cfg base root) /\ dq s' = [] /\ fq s' = [] /\ errs s' = [])).
+Proof. exact fair_terminates_full. Qed.
+Print Assumptions C08_fair_terminates.
+
+(** Weak fairness is implied by "every thread but the environment gets a turn again and again"
+    (whatever the configuration and the start state), and such a schedule exists: [tri_sched]. *)
+Theorem C08_fair_schedules : 
+  (forall cfg s0 f, fair f -> wfair cfg s0 f) /\ fair tri_sched.
+Proof. exact (conj fair_wfair tri_fair). Qed.
+Print Assumptions C08_fair_schedules.
+
+Theorem C08_late_error_refuted :
+  let s := run le_cfg le_sched (init le_cfg le_base le_root) in
+  let s' := run le_cfg le_more s in
+  waited s = true /\ all_exited s = true /\ reported s = [RCancel] /\ lfail s = [] /\
+  reported s' = [RErr (ELs [46; 47; 97; 47]); RCancel] /\ lfail s' = [[46; 47; 97; 47]] /\
+  log s' = [].
+Proof. exact late_error_full. Qed.
+Print Assumptions C08_late_error_refuted.
+
+(** ---------- non-vacuity of the third part (vm_compute) *)
+
+(* a callback in flight: begun, not returned *)
+Example C08_flight_example :
+  let s := run ex_cfg [TP 0%nat; TP 0%nat; TC 0%nat; TC 0%nat; TC 0%nat; TC 0%nat; TC 0%nat] (init ex_cfg f16_base ex_root) in
+  log s = [IDir [46; 47; 97]] /\ ended s = [] /\ flight s = [IDir [46; 47; 97]] /\ running s = 1%nat /\ waited s = false.
+Proof. vm_compute. repeat split. Qed.
+
+(* Wait returned, Errors() empty, no Kill event in the schedule: both hypotheses of
+   C08_no_error_exactly_once hold; five callbacks begun and returned *)
+Example C08_no_error_nonvacuous :
+  let s := run ex_cfg ex_sched (init ex_cfg f16_base ex_root) in
+  waited s = true /\ reported s = [] /\ ~ In TX ex_sched /\ errs s = [] /\
+  length (ended s) = 5%nat /\ flight s = [].
+Proof.
+  vm_compute. repeat split; auto.
+  intros H. repeat (destruct H as [H|H]; [discriminate H|]). exact H.
+Qed.
+
+(* a Kill event and nothing else: the recorded errors are empty although nothing was visited, so
+   the second alternative of C08_no_error_exactly_once does need "no Kill event"; Errors() is
+   not empty (the context error), so the first alternative does not *)
+Example C08_kill_event_reported :
+  let s := run kl_cfg kl_sched (init kl_cfg kl_base kl_root) in
+  waited s = true /\ errs s = [] /\ reported s = [RCancel] /\ log s = [] /\ In TX kl_sched /\
+  length (sel_list kl_cfg kl_base kl_root) = 2%nat.
+Proof. vm_compute. repeat split; auto. Qed.
+
+(* a failed callback: killed without any Kill event, and the list holds exactly that failure *)
+Example C08_errors_exact_nonvacuous :
+  let cfg := mkCfg (fun _ => true) (fun _ => true) false true true (fun _ => false)
+                   (fun it => match it with IDir _ => true | _ => false end) 1%nat 1%nat 4%nat 4%nat ClosedThenEmpty in
+  let sched := concat (repeat [TP 0%nat; TC 0%nat] 30%nat) in
+  let s := run cfg sched (init cfg f16_base ex_root) in
+  all_exited s = true /\ killed s = true /\ errs s = [ECb (IDir [46; 47; 97])] /\
+  In (IDir [46; 47; 97]) (ended s) /\
+  reported s = [RErr (ECb (IDir [46; 47; 97])); RCancel].
+Proof. vm_compute. repeat split; auto. Qed.
+
+(* the selected set of the example tree, read off the declarative definition: b/ is below a/ *)
+Example C08_selected_example :
+  Selected ex_cfg f16_base ex_root (IFile [46; 47; 97; 47; 98; 47; 121]).
+Proof.
+  apply (Sel_below ex_cfg f16_base ex_root [97] [File [120]; Dir [98] [File [121]]]); [left; reflexivity|right; reflexivity|].
+  apply (Sel_below ex_cfg _ _ [98] [File [121]]); [right; left; reflexivity|right; reflexivity|].
+  apply (Sel_file ex_cfg ((((f16_base ++ [97]) ++ [SLASH]) ++ [98]) ++ [SLASH]) [File [121]] [121]); [left; reflexivity|reflexivity|reflexivity].
+Qed.
+
+(* the fair schedule [tri_sched] on the example tree: ended after 600 positions (and from then on) *)
+Example C08_fair_terminates_nonvacuous :
+  wfair ex_cfg (init ex_cfg f16_base ex_root) tri_sched /\
+  let s := run ex_cfg (pre tri_sched 600%nat) (init ex_cfg f16_base ex_root) in
+  finished s = true /\ killed s = false /\ length (log s) = 5%nat /\
+  finished (run ex_cfg (pre tri_sched 300%nat) (init ex_cfg f16_base ex_root)) = false.
+Proof. split; [apply fair_wfair; exact tri_fair|]. vm_compute. repeat split. Qed.
